@@ -84,7 +84,18 @@ func HarnessC18f() {
 	// a name never written does not load
 	_, err := p.Load(vctx, name)
 	verifAssert("C18.file.missing-name-errors", err != nil)
-	switch verifChoose("scenario", 4) {
+	switch verifChoose("scenario", 5) {
+	case 4: // the write is cut short by an I/O error: either the error is returned or the node is fully there
+		if len(b) == 0 {
+			verifAssume(false)
+		}
+		verifFSWriteError(0, verifChoose("werr", len(b)))
+		err, _ := storeUnderFault(p, name, b)
+		verifFSWriteError(-1, 0)
+		if err == nil {
+			got, lerr := p.Load(vctx, name)
+			verifAssert("C18.file.write-error-returned-or-stored", lerr == nil && bytesEq(got, b))
+		}
 	case 0: // round trip, then the same name and bytes again
 		verifAssert("C18.file.store.err", p.Store(vctx, name, b) == nil)
 		got, err := p.Load(vctx, name)
